@@ -90,19 +90,24 @@ structure Placed (K : Type) where
   shape : Shape K
   X : Xf K
 
-/-- the algorithm registered for the ordered type pair, applied to the two objects in that order -/
-def registered (sqrt : K → K) (A B : Placed K) : Option (Option (Contact K)) :=
+/-- the algorithm registered for the ordered type pair, applied to the two objects in that order.  `convex` stands for
+`CollisionDetectionAlgorithm::ConvexConvex::processObjects` (MPR + Newton, not modelled), which the C++ registers for
+(Ellipsoid, Sphere) and (Ellipsoid, Ellipsoid); every other ordered pair of these shapes has no registered algorithm. -/
+def registered (sqrt : K → K) (convex : Placed K → Placed K → Option (Contact K)) (A B : Placed K) :
+    Option (Option (Contact K)) :=
   match A.shape, B.shape with
   | .halfSpace, .sphere r => some (hsSphere A.idx B.idx A.X B.X.p r)
   | .sphere r1, .sphere r2 => some (sphereSphere sqrt A.idx B.idx A.X.p B.X.p r1 r2)
   | .halfSpace, .ellipsoid a => some (hsEllipsoid sqrt A.idx B.idx A.X B.X a)
+  | .ellipsoid _, .sphere _ => some (convex A B)
+  | .ellipsoid _, .ellipsoid _ => some (convex A B)
   | _, _ => none
 
 /-- `getAlgorithm(t1,t2)`, else `getAlgorithm(t2,t1)` with swapped arguments, else no detection -/
-def detect (sqrt : K → K) (A B : Placed K) : Option (Contact K) :=
-  match registered sqrt A B with
+def detect (sqrt : K → K) (convex : Placed K → Placed K → Option (Contact K)) (A B : Placed K) : Option (Contact K) :=
+  match registered sqrt convex A B with
   | some c => c
-  | none => match registered sqrt B A with
+  | none => match registered sqrt convex B A with
     | some c => c
     | none => none
 
